@@ -410,6 +410,9 @@ func parsePossibilityArch(input *input, possi *Possibility) error {
 		case '!':
 			return errors.New("You can only negate whole blocks :(")
 		case ']', ' ', '\t', '\r', '\n': /* Let our parent deal with these */
+			if arch == "" {
+				return errors.New("Negation without an Arch name")
+			}
 			archObj, err := ParseArch(arch)
 			if err != nil {
 				return err
